@@ -21,7 +21,7 @@ Proof. vm_compute. reflexivity. Qed.
 Definition chk_w3 (o : Z) : bool :=
   forallb (fun P => negb (crc0 (be_encode 3 (P * 2 ^ (8 - o))) =? 0)) (zrange 1 65535).
 Lemma w3_sweep : forallb chk_w3 (zrange 0 8) = true.
-Proof. vm_compute. reflexivity. Qed.
+Proof. vm_cast_no_check (eq_refl true). Qed.
 
 Lemma window_nonzero w : window16 w -> crc0 w <> 0.
 Proof.
@@ -63,8 +63,9 @@ Theorem crc_detects_burst16 m e : wf_bytes m -> burst16 e -> length e = length m
 Proof.
   intros Wm B L. rewrite crc_affine by (try assumption; apply burst16_wf; assumption).
   pose proof (crc0_burst_nonzero e B) as NZ. intros E.
-  apply NZ. rewrite <- (Z.lxor_0_l (crc0 e)).
-  rewrite <- (Z.lxor_nilpotent (crc16 m)), Z.lxor_assoc, E. apply Z.lxor_nilpotent.
+  assert (X : Z.lxor (crc16 m) (Z.lxor (crc16 m) (crc0 e)) = crc0 e).
+  { rewrite <- Z.lxor_assoc, Z.lxor_nilpotent. apply Z.lxor_0_l. }
+  rewrite E, Z.lxor_nilpotent in X. congruence.
 Qed.
 
 (* single-bit flips are bursts *)
